@@ -111,6 +111,16 @@ func c10Server(c *caseCtx) {
 		N = 500
 	}
 	gs, bodies := c10Corpus(c.rng, N)
+	// a second baseline through the library in this (fresh) process: the valid requests first, so that nothing a
+	// rejected request may leave behind in shared state can be part of it
+	libBase := make([]decision, N)
+	for pass := 0; pass < 2; pass++ {
+		for i := range bodies {
+			if gs[i].invalid == (pass == 1) {
+				libBase[i] = decide(bodies[i], false)
+			}
+		}
+	}
 	prefix := filepath.Join(*fWorkDir, fmt.Sprintf("race-srv-%d-%d", os.Getpid(), c.idx))
 	s, err := startServer("GORACE=halt_on_error=0 log_path="+prefix, fmt.Sprintf("GOMAXPROCS=%d", cfg.procs))
 	if err != nil {
@@ -207,6 +217,9 @@ func c10Server(c *caseCtx) {
 				bads = append(bads, bad{g.idx, 0, "", g.err})
 			} else if g.status != baseline[g.idx].status || g.body != baseline[g.idx].body {
 				bads = append(bads, bad{g.idx, g.status, g.body, ""})
+			} else if (g.status == 200) != libBase[g.idx].OK || (g.status == 200 && g.body != string(libBase[g.idx].JSON)) {
+				bads = append(bads, bad{g.idx, g.status, g.body, ""})
+				baseline[g.idx] = base{map[bool]int{true: 200, false: 400}[libBase[g.idx].OK], string(libBase[g.idx].JSON)}
 			}
 		}
 	}
